@@ -220,6 +220,8 @@ pub struct EpCfg {
     /// extra payload bytes of a publish that uses an alias with an empty topic (its store copy then outgrows the
     /// packet that registered the alias)
     pub use_extra: usize,
+    /// the application's AUTH carries reason code 0x18 and an Authentication Method (8 bytes instead of 2)
+    pub auth_method: bool,
 }
 
 impl EpCfg {
@@ -245,6 +247,7 @@ impl EpCfg {
             stimuli: Arc::new(vec![]),
             force_connect_ver: None,
             pub_pad: 0,
+            auth_method: false,
             use_extra: 0,
         }
     }
@@ -1090,6 +1093,10 @@ impl<P: Pid> World for Ep<P> {
                     v.push(Act::PConnack(0));
                 }
             }
+            // extended authentication: the server's AUTH precedes its CONNACK
+            if al.auth && self.v5() && version_known {
+                v.push(Act::Auth);
+            }
             // ... and the library lets it hand over QoS>0 publishes of a persistent session already
             // (they are stored and go out behind the CONNACK)
             if al.pub_any_status && version_known && m.exchanges() < c.window {
@@ -1468,7 +1475,10 @@ impl<P: Pid> World for Ep<P> {
             Act::Disconnect => calls.push(self.lib_send(&AP::Disconnect { ver, code: None, props: None })),
             Act::DisconnectExpiry0 => calls.push(self.lib_send(&AP::Disconnect { ver, code: Some(0), props: Some(vec![Prop { id: 0x11, val: PVal::U32(0) }]) })),
             Act::DisconnectKeep => calls.push(self.lib_send(&AP::Disconnect { ver, code: Some(0), props: Some(vec![Prop { id: 0x11, val: PVal::U32(100) }]) })),
-            Act::Auth => calls.push(self.lib_send(&AP::Auth { code: None, props: None })),
+            Act::Auth => {
+                let ap = if self.cfg.auth_method { AP::Auth { code: Some(0x18), props: Some(vec![Prop { id: 0x15, val: PVal::Str(b"m".to_vec()) }]) } } else { AP::Auth { code: None, props: None } };
+                calls.push(self.lib_send(&ap))
+            }
             Act::Timer(k) => {
                 self.m.timer_fires += 1;
                 let evs = self.conn.notify_timer_fired(*k);
